@@ -244,6 +244,8 @@ def run_check(pid, tier, seed, t0):
             pass
     lines = []
     nviol = 0
+    n_unreplayed = 0
+    REPLAY_CAP = int(os.environ.get("PYVC_REPLAY_CAP", "12"))
     known_hit = set()
     n_kf_obl = 0
     seen_names = set()
@@ -273,6 +275,13 @@ def run_check(pid, tier, seed, t0):
             n_kf_obl += 1
         if kf0 is not None and id(kf0) in known_hit:
             continue        # further obligations of a finding already reported in this run
+        if dedupe in seen_names and kf0 is None:
+            continue        # same obligation on another path: already reported
+        if nviol >= REPLAY_CAP and kf0 is None:
+            # a badly broken tree refutes thousands of obligations: the first ones are
+            # replayed and reported one by one, the rest are counted
+            n_unreplayed += 1
+            continue
         if t["kind"] == "verify" and rep["contract"] is not None:
             json.dump(rep, open(path, "w"), indent=1, default=str)
             reproduced, rout = do_replay(path)
@@ -299,6 +308,10 @@ def run_check(pid, tier, seed, t0):
         suffix = "" if reproduced else " no-failing-input-found"
         lines.append("VIOLATION property=%s replay=%s obligation=%s mode=%s%s" % (
             pid, path, x["name"], t["mode"], suffix))
+    if n_unreplayed:
+        lines.append("NOTE: %d further refuted obligations of property %s not replayed one by "
+                     "one (cap %d); they are listed in the evidence file" % (
+                         n_unreplayed, pid, REPLAY_CAP))
     for c in custom_fail:
         fname = re.sub(r"[^A-Za-z0-9_.\[\]-]", "_", c["name"])[:150]
         path = os.path.join(rdir, fname + ".json")
